@@ -65,9 +65,16 @@ fn class_name(c: u64) -> String {
     format!("{}/{}/scale {}/{}", if (c >> 9) & 1 == 0 { "f64" } else { "f32" }, ["exact", "below midpoint", "tie -> even (down)", "tie -> even (up)", "above midpoint", "zero"][((c >> 6) & 7) as usize], (c >> 1) & 31, if c & 1 == 1 { "negative" } else { "nonneg" })
 }
 
+thread_local! {
+    /// index of the thread-default rounding mode set by the worker of the "foreign mode" stage (255 = untouched)
+    static FOREIGN_MODE: std::cell::Cell<u8> = const { std::cell::Cell::new(255) };
+}
+
 pub fn case(a: i128, f: u8, l: &mut Local) {
     let d = Decimal::new_raw(a, f);
-    let mk = || json!({"a": a.to_string(), "f": f});
+    let fm = FOREIGN_MODE.with(|c| c.get());
+    let tag = if fm == 255 { String::new() } else { format!(" [thread default {}]", crate::spec::mode_name(crate::spec::ALL_MODES[fm as usize])) };
+    let mk = || json!({"a": a.to_string(), "f": f, "thread_mode": if fm == 255 { Value::Null } else { json!(fm) }});
     let text = canonical(a, f);
     // f64
     let r64 = round_to_float(a.unsigned_abs(), f, 53);
@@ -86,9 +93,9 @@ pub fn case(a: i128, f: u8, l: &mut Local) {
     let shape = if f == 0 { "scale 0 (integer cast path)" } else if a.unsigned_abs() >> 64 != 0 { "coefficient >= 2^64" } else { "coefficient < 2^64" };
     match got64 {
         Ok(g) => { l.outcome(g.to_bits()); if g.to_bits() != want64 {
-            l.violation(format!("f64::from(Decimal) | {} / {} | not the nearest float", shape, cls(r64.map(|x| x.2))), || (format!("f64::from(({},{})) = {:e} ({:#x}), nearest {:e} ({:#x})", a, f, g, g.to_bits(), f64::from_bits(want64), want64), mk()));
+            l.violation(format!("f64::from(Decimal){} | {} / {} | not the nearest float", tag, shape, cls(r64.map(|x| x.2))), || (format!("f64::from(({},{})) = {:e} ({:#x}), nearest {:e} ({:#x})", a, f, g, g.to_bits(), f64::from_bits(want64), want64), mk()));
         }}
-        Err(()) => l.violation(format!("f64::from(Decimal) | {} | panicked", shape), || (format!("({},{})", a, f), mk())),
+        Err(()) => l.violation(format!("f64::from(Decimal){} | {} | panicked", tag, shape), || (format!("({},{})", a, f), mk())),
     }
     // f32
     let r32 = round_to_float(a.unsigned_abs(), f, 24);
@@ -105,15 +112,19 @@ pub fn case(a: i128, f: u8, l: &mut Local) {
     }
     match got32 {
         Ok(g) => { if g.to_bits() != want32 {
-            l.violation(format!("f32::from(Decimal) | {} / {} | not the nearest float", shape, cls(r32.map(|x| x.2))), || (format!("f32::from(({},{})) = {:e} ({:#x}), nearest {:e} ({:#x})", a, f, g, g.to_bits(), f32::from_bits(want32), want32), mk()));
+            l.violation(format!("f32::from(Decimal){} | {} / {} | not the nearest float", tag, shape, cls(r32.map(|x| x.2))), || (format!("f32::from(({},{})) = {:e} ({:#x}), nearest {:e} ({:#x})", a, f, g, g.to_bits(), f32::from_bits(want32), want32), mk()));
         }}
-        Err(()) => l.violation(format!("f32::from(Decimal) | {} | panicked", shape), || (format!("({},{})", a, f), mk())),
+        Err(()) => l.violation(format!("f32::from(Decimal){} | {} | panicked", tag, shape), || (format!("({},{})", a, f), mk())),
     }
 }
 
 pub fn replay(w: &Value) -> Vec<(String, String)> {
     let run = Run::new("C12", Tier::Quick);
+    let prev = fpdec::RoundingMode::default();
+    if let Some(m) = w["thread_mode"].as_u64() { FOREIGN_MODE.with(|c| c.set(m as u8)); fpdec::RoundingMode::set_default(crate::spec::ALL_MODES[m as usize]); }
     run.seq(|l| case(w["a"].as_str().unwrap().parse().unwrap(), w["f"].as_u64().unwrap() as u8, l));
+    FOREIGN_MODE.with(|c| c.set(255));
+    fpdec::RoundingMode::set_default(prev);
     run.violations().into_iter().map(|(s, r)| (s, r.detail)).collect()
 }
 
@@ -169,6 +180,31 @@ pub fn run(tier: Tier) -> i32 {
         }
     });
     run.stage("S3 float midpoints", json!({"types": ["f64", "f32"], "scales": 19, "binary_exponents": "-130..=110 (those in reach of the coefficient range)", "significands_f64": sig53.len(), "significands_f32": sig24.len(), "neighbours": "floor(mu*10^f)+{-1,0,1,2}"}));
+    // the conversion rounds to nearest, ties to even, WHATEVER the thread's default rounding mode is: a reduced midpoint
+    // family and a small scope again on workers whose default is each of the seven other modes (a shared rounding
+    // helper called with "use the thread default" would follow it; compare seeded change C13-m6)
+    {
+        let mut it2: Vec<(u32, u8, i32)> = Vec::new();
+        for p in [53u32, 24] { for f in [0u8, 1, 2, 9, 17, 18] { for e in (-60i32..=60).step_by(if th { 1 } else { 5 }) { it2.push((p, f, e)); } } }
+        for (mi, mode) in crate::spec::ALL_MODES.iter().enumerate() {
+            if *mode == fpdec::RoundingMode::RoundHalfEven { continue; }
+            run.par_for(&it2, || { fpdec::RoundingMode::set_default(*mode); FOREIGN_MODE.with(|c| c.set(mi as u8)); }, |&(p, f, e), l| {
+                let sigs = if p == 53 { &sig53 } else { &sig24 };
+                let ten = U512::pow10(f as u32);
+                for &m in sigs.iter().step_by(if th { 1 } else { 4 }) {
+                    let odd = U512::from_u64(m).shl(1).add(&U512::ONE).mul(&ten);
+                    let sh = e - 1;
+                    let v = if sh >= 0 { if odd.bits() + sh as u32 > 130 { continue; } odd.shl(sh as u32) } else { odd.shr((-sh) as u32) };
+                    if v.bits() > 127 || v.is_zero() { continue; }
+                    let base = v.low_u128() as i128;
+                    for dl in [-1i128, 0, 1] { let a = base + dl; if a > 0 { case(a, f, l); case(-a, f, l); } }
+                }
+            });
+            let small: Vec<i128> = (-300..=300).collect();
+            run.par_for(&small, || { fpdec::RoundingMode::set_default(*mode); FOREIGN_MODE.with(|c| c.set(mi as u8)); }, |&a, l| { for f in 0..=18u8 { case(a, f, l); } });
+        }
+        run.stage("midpoints and small scope under the seven other thread-default modes", json!({"items": it2.len(), "modes": 7}));
+    }
 
     let names = [(20usize, "from_decimal: adj=0"), (21, "from_decimal: adj=1"), (22, "from_decimal: rounded up"), (23, "from_decimal: rounding carries into the exponent")];
     let mut hooks = serde_json::Map::new();
